@@ -133,7 +133,11 @@ def judgeCrash (line : String) : String :=
           let ok1 := match states[acked]? with | some d => decide (Spec.abs now d = a) | none => false
           let ok2 := match states[acked + 1]? with | some d => decide (Spec.abs now d = a) | none => false
           let reopen := rwS == "1" && roS == "1" && integ == "ok"
-          s!"{seq} S={if ok1 || ok2 then 1 else 0} I={if (canon rec).invB then 1 else 0} R={if reopen then 1 else 0} W={if ok1 then "acked" else if ok2 then "inflight" else "none"} K="
+          -- an operation outside the numeric domain of the model among those that ran (a float
+          -- increment by 0.1, say): the model cannot say what the tables must hold
+          let ood := (ops.take (acked + 1)).zip states |>.any (fun (p, d) => isOutOfDomain (Model.dbRun p.2 p.1 d).out)
+          let sv := if ood then "-" else if ok1 || ok2 then "1" else "0"
+          s!"{seq} S={sv} I={if (canon rec).invB then 1 else 0} R={if reopen then 1 else 0} W={if ok1 then "acked" else if ok2 then "inflight" else "none"} K="
       | _, _, .error e => s!"{seq} ERR dump: {e}"
       | _, _, _ => s!"{seq} ERR header"
     | _, _ => "? ERR bad crash header"
